@@ -104,19 +104,48 @@ def dictRest (n : Nat) (dec : Slice → Outcome (Val × Slice)) (s : Slice) : Sl
       | _ => { s with bits := [], refs := [] }
   | _ => { s with bits := [], refs := [] }
 
+/-- HashmapE.UnmarshalTLB: Maybe ^(Hashmap n X); a pruned root decodes as the empty dictionary. `kdec`: the key decoder
+on the key bits, `C`: the value codec for C05's tree decoder. -/
+def decodeDictE (kw : Option Nat) (kdec : Hashmap.Key → Outcome Val) (C : Hashmap.Codec Val) (s : Slice) :
+    Outcome (Val × Slice) := do
+  let (ne, s) ← s.readBit
+  if !ne then pure (.nil, s)
+  else do
+    let (r, s) ← s.nextRef
+    let rs := Slice.ofCell r
+    if rs.isPruned then pure (.nil, s)
+    else match kw with
+      | none => .err "bad key type"
+      | some n => do
+        let kvs ← Hashmap.unmarshal C n r
+        let ks ← mapMOutcome (fun (kv : Hashmap.Key × Val) => kdec kv.1) kvs
+        pure (dictVal ks (kvs.map (·.2)), s)
+
+/-- Hashmap.UnmarshalTLB on the current cell (a pruned cell decodes as the empty map). The type counts as greedy
+(`wfb` admits it in the last position only): the round-trip theorem says nothing about what follows it. -/
+def decodeDict (kw : Option Nat) (kdec : Hashmap.Key → Outcome Val) (C : Hashmap.Codec Val)
+    (vdec : Slice → Outcome (Val × Slice)) (s : Slice) : Outcome (Val × Slice) :=
+  if s.isPruned then pure (.nil, s)
+  else match kw with
+    | none => .err "bad key type"
+    | some n => do
+      let kvs ← Hashmap.unmarshal C n s.toCell
+      let ks ← mapMOutcome (fun (kv : Hashmap.Key × Val) => kdec kv.1) kvs
+      pure (dictVal ks (kvs.map (·.2)), dictRest n vdec s)
+
 /-! ### HashmapAug / HashmapAugE (decode side; the trees are C05's `mapInnerAug` / `unmarshalAugE`) -/
 
 def emptied (s : Slice) : Slice := { s with bits := [], refs := [] }
 
-/-- the extra decoder as the dictionary model wants it: what is left of the cell after one extra -/
-def skipExtra (xdec : Slice → Outcome (Val × Slice)) (bits : List Bool) (refs : List Cell) :
-    Outcome (List Bool × List Cell) :=
-  (xdec { bits := bits, refs := refs }).bind fun r => .ok (r.2.bits, r.2.refs)
+/-- the extra decoder as the dictionary model wants it: the extra and what is left of the cell -/
+def skipExtra (xdec : Slice → Outcome (Val × Slice)) : Hashmap.XDec Val := fun bits refs =>
+  (xdec { bits := bits, refs := refs }).bind fun r => .ok (r.1, r.2.bits, r.2.refs)
 
-/-- HashmapAugE.UnmarshalTLB = struct { M Maybe ^(HashmapAug n X Y); Extra Y }; dump: (keys|values|extra) -/
+/-- HashmapAugE.UnmarshalTLB = struct { M Maybe ^(HashmapAug n X Y); Extra Y }; dump: (keys|values|extra) (the tree of
+inner extras has no accessor) -/
 def decodeDictAugE (n : Nat) (kdec : Hashmap.Key → Outcome Val) (C : Hashmap.Codec Val)
     (xdec : Slice → Outcome (Val × Slice)) (s : Slice) : Outcome (Val × Slice) := do
-  let kvs ← Hashmap.unmarshalAugE (skipExtra xdec) C n s.toCell
+  let (kvs, _, _) ← Hashmap.unmarshalAugE (skipExtra xdec) Val.nil C n s.toCell
   let ks ← mapMOutcome (fun (kv : Hashmap.Key × Val) => kdec kv.1) kvs
   let (ne, s1) ← s.readBit
   let s2 ← if ne then (s1.nextRef).bind fun r => .ok r.2 else .ok s1
@@ -143,7 +172,7 @@ def decodeDictAug (n : Nat) (kdec : Hashmap.Key → Outcome Val) (C : Hashmap.Co
     (xdec vdec : Slice → Outcome (Val × Slice)) (s : Slice) : Outcome (Val × Slice) :=
   if s.isPruned then .ok (Val.list [.nil, .nil], s)
   else do
-    let kvs ← Hashmap.mapInnerAug (skipExtra xdec) C n (n + 1) n s.toCell []
+    let (kvs, _) ← Hashmap.mapInnerAug (skipExtra xdec) Val.nil C n (n + 1) n s.toCell []
     let ks ← mapMOutcome (fun (kv : Hashmap.Key × Val) => kdec kv.1) kvs
     pure (Val.list [Val.list ks, Val.list (kvs.map (·.2))], dictAugRest n xdec vdec s)
 
@@ -181,8 +210,9 @@ def Val.nth : Val → Nat → Option Val
   | .cons _ t, n + 1 => Val.nth t n
   | _, _ => Option.none
 
+/-- the component types of a hand decoder are listed as plainly tagged fields -/
 def Fields.nthTy : Fields → Nat → Option Ty
-  | .cons _ _ t _, 0 => some t
+  | .cons _ .plain t _, 0 => some t
   | .cons _ _ _ rest, n + 1 => Fields.nthTy rest n
   | _, _ => none
 
@@ -218,6 +248,24 @@ def decBlkPrev (dec : DecFn) (ext : Ty) (isBlks : Bool) (c : Slice) : Outcome Va
     let (p, _) ← dec ext c
     pure (Val.ctor "PrevBlkInfo" (Val.some (Val.list [p])))
 
+/-- a component present only under a flag, read from the current cell: a pointer, nil when absent -/
+def optHere (c : Bool) (dec : DecFn) (T : Ty) (s : Slice) : Outcome (Val × Slice) :=
+  if c then (dec T s).bind fun r => .ok (Val.some r.1, r.2) else .ok (Val.none, s)
+
+/-- a component present only under a flag, in the next referenced cell -/
+def optRef (c : Bool) (f : Slice → Outcome Val) (s : Slice) : Outcome (Val × Slice) :=
+  if c then (s.nextRef).bind fun r => (f (Slice.ofCell r.1)).bind fun v => .ok (Val.some v, r.2)
+  else .ok (Val.none, s)
+
+/-- a component present only under a flag, zero when absent -/
+def orZero (c : Bool) (dec : DecFn) (zero : Ty → Val) (T : Ty) (s : Slice) : Outcome (Val × Slice) :=
+  if c then dec T s else .ok (zero T, s)
+
+def nthOr (v : Val) (i : Nat) : Outcome Val :=
+  match v.nth i with
+  | some p => .ok p
+  | none => .err "bad descriptor"
+
 /-- BlockInfo.UnmarshalTLB. aux = (header struct with the magic and BlockInfoPart | GlobalVersion | BlkMasterInfo |
 ExtBlkRef). gen_software:flags . 0?GlobalVersion  master_ref:not_master?^BlkMasterInfo
 prev_ref:^(BlkPrevInfo after_merge)  prev_vert_ref:vert_seqno_incr?^(BlkPrevInfo 0) -/
@@ -227,26 +275,16 @@ def decBlockInfo (dec : DecFn) (aux : Ty) (s : Slice) : Outcome (Val × Slice) :
   let bmi ← aux.auxAt 2
   let ext ← aux.auxAt 3
   let (d, s) ← dec hdr s
-  let part ← match d.nth 1 with
-    | some p => Outcome.ok p
-    | none => .err "bad descriptor"
+  let part ← nthOr d 1
   let notMaster ← valBool (part.nth 1)
   let afterMerge ← valBool (part.nth 2)
   let vert ← valBool (part.nth 8)
   let flags ← valNat (part.nth 9)
-  let (gs, s) ← if flags % 2 = 1 then (dec gv s).bind fun r => .ok (Val.some r.1, r.2) else .ok (Val.none, s)
-  let (mr, s) ← if notMaster then do
-      let (r, s) ← s.nextRef
-      let (m, _) ← dec bmi (Slice.ofCell r)
-      pure (Val.some m, s)
-    else .ok (Val.none, s)
+  let (gs, s) ← optHere (flags % 2 == 1) dec gv s
+  let (mr, s) ← optRef notMaster (fun c => (dec bmi c).bind fun r => .ok r.1) s
   let (r, s) ← s.nextRef
   let prev ← decBlkPrev dec ext afterMerge (Slice.ofCell r)
-  let (pv, s) ← if vert then do
-      let (r, s) ← s.nextRef
-      let p ← decBlkPrev dec ext false (Slice.ofCell r)
-      pure (Val.some p, s)
-    else .ok (Val.none, s)
+  let (pv, s) ← optRef vert (fun c => decBlkPrev dec ext false c) s
   pure (Val.list [part, gs, mr, prev, pv], s)
 
 def valueFlowV1 : Nat := 0xb8e48dfb
@@ -268,10 +306,14 @@ def decValueFlow (dec : DecFn) (aux : Ty) (s : Slice) : Outcome (Val × Slice) :
     let (g1, s) ← s.nextRef
     let (fees, s) ← dec cc s
     let (a, b, c, d) ← decFour dec cc (Slice.ofCell g1)
-    let (burned, s) ← if tag = valueFlowV2 then (dec cc s).bind fun r => .ok (Val.some r.1, r.2) else .ok (Val.none, s)
+    let (burned, s) ← optHere (tag == valueFlowV2) dec cc s
     let (g2, s) ← s.nextRef
     let (e, f, g, h) ← decFour dec cc (Slice.ofCell g2)
     pure (Val.list [.magic, a, b, c, d, fees, burned, e, f, g, h], s)
+
+/-- one side of split_state: a pruned side stays zero -/
+def decSide (dec : DecFn) (zero : Ty → Val) (unsplit : Ty) (c : Cell) : Outcome Val :=
+  if (Slice.ofCell c).isPruned then .ok (zero unsplit) else (dec unsplit (Slice.ofCell c)).bind fun r => .ok r.1
 
 /-- ShardState.UnmarshalTLB: split_state#5f327da5 left:^ShardStateUnsplit right:^ShardStateUnsplit (a pruned side stays
 zero) | shard_state#9023afe2 …; aux = (ShardStateUnsplit | ShardStateUnsplitData) -/
@@ -281,11 +323,9 @@ def decShardState (dec : DecFn) (zero : Ty → Val) (aux : Ty) (s : Slice) : Out
   let (tag, s) ← s.readUint 32
   if tag = 0x5f327da5 then do
     let (c1, s) ← s.nextRef
-    let l ← if (Slice.ofCell c1).isPruned then Outcome.ok (zero unsplit)
-      else (dec unsplit (Slice.ofCell c1)).bind fun r => .ok r.1
+    let l ← decSide dec zero unsplit c1
     let (c2, s) ← s.nextRef
-    let r ← if (Slice.ofCell c2).isPruned then Outcome.ok (zero unsplit)
-      else (dec unsplit (Slice.ofCell c2)).bind fun r => .ok r.1
+    let r ← decSide dec zero unsplit c2
     pure (Val.ctor "SplitState" (Val.list [l, r]), s)
   else if tag = 0x9023afe2 then do
     let (d, s) ← dec data s
@@ -305,8 +345,15 @@ def decMcStateExtraOther (dec : DecFn) (zero : Ty → Val) (aux : Ty) (s : Slice
   let (b, s) ← dec pb s
   let (c, s) ← dec akb s
   let (d, s) ← dec lkb s
-  let (e, s) ← if flags = 1 then dec bcs s else .ok (zero bcs, s)
+  let (e, s) ← orZero (flags == 1) dec zero bcs s
   pure (Val.list [.int flags, a, b, c, d, e], s)
+
+/-- the optional reference of McBlockExtra: decoded when present, zero otherwise -/
+def optRefZero (dec : DecFn) (zero : Ty → Val) (T : Ty) (s : Slice) : Outcome (Val × Slice) :=
+  match s.nextRef with
+  | .ok (c1, s') => (dec T (Slice.ofCell c1)).bind fun r => .ok (r.1, s')
+  | .err _ => .ok (zero T, s)
+  | .panic p => .panic p
 
 /-- McBlockExtra.UnmarshalTLB: masterchain_block_extra#cca5 key_block:(## 1) shard_hashes:ShardHashes shard_fees:ShardFees
 ^[ … ] config:key_block?ConfigParams; the reference is optional for the decoder; aux = the six fields -/
@@ -322,12 +369,9 @@ def decMcBlockExtra (dec : DecFn) (zero : Ty → Val) (aux : Ty) (s : Slice) : O
     let (k, s) ← dec kb s
     let (a, s) ← dec sh s
     let (b, s) ← dec sf s
-    let (o, s) ← match s.nextRef with
-      | .ok (c1, s') => (dec oth (Slice.ofCell c1)).bind fun r => .ok (r.1, s')
-      | .err _ => .ok (zero oth, s)
-      | .panic p => .panic p
+    let (o, s) ← optRefZero dec zero oth s
     let isKey ← valBool (some k)
-    let (c, s) ← if isKey then dec cfg s else .ok (zero cfg, s)
+    let (c, s) ← orZero isKey dec zero cfg s
     pure (Val.list [.magic, k, a, b, o, c], s)
 
 /-- CryptoSignature.UnmarshalTLB: ed25519_signature#5 R:bits256 s:bits256 | chained_signature#f signed_cert:^SignedCertificate
@@ -478,32 +522,12 @@ def decode (env : Env) : Nat → Ty → Slice → Outcome (Val × Slice)
       else do
         let (vs, s) ← decodeStack env fuel e depth s
         pure (Val.list vs, s)
-    | .dictE k t => do
-      -- HashmapE.UnmarshalTLB: Maybe ^(Hashmap n X); a pruned root decodes as the empty dictionary
-      let (ne, s) ← s.readBit
-      if !ne then pure (.nil, s)
-      else do
-        let (r, s) ← s.nextRef
-        let rs := Slice.ofCell r
-        if rs.isPruned then pure (.nil, s)
-        else match keyWidth k with
-          | none => .err "bad key type"
-          | some n => do
-            let kvs ← Hashmap.unmarshal (valueCodecDec (fun vs => decode env fuel t vs)) n r
-            let ks ← mapMOutcome (fun (kv : Hashmap.Key × Val) =>
-              (decode env fuel k { bits := kv.1 }).bind fun r => .ok r.1) kvs
-            pure (dictVal ks (kvs.map (·.2)), s)
+    | .dictE k t =>
+      decodeDictE (keyWidth k) (fun key => (decode env fuel k { bits := key }).bind fun r => .ok r.1)
+        (valueCodecDec (fun vs => decode env fuel t vs)) s
     | .dict k t =>
-      -- Hashmap.UnmarshalTLB on the current cell (a pruned cell decodes as the empty map). The type counts as greedy
-      -- (`wfb` admits it in the last position only): the round-trip theorem says nothing about what follows it.
-      if s.isPruned then pure (.nil, s)
-      else match keyWidth k with
-        | none => .err "bad key type"
-        | some n => do
-          let kvs ← Hashmap.unmarshal (valueCodecDec (fun vs => decode env fuel t vs)) n s.toCell
-          let ks ← mapMOutcome (fun (kv : Hashmap.Key × Val) =>
-            (decode env fuel k { bits := kv.1 }).bind fun r => .ok r.1) kvs
-          pure (dictVal ks (kvs.map (·.2)), dictRest n (fun vs => decode env fuel t vs) s)
+      decodeDict (keyWidth k) (fun key => (decode env fuel k { bits := key }).bind fun r => .ok r.1)
+        (valueCodecDec (fun vs => decode env fuel t vs)) (fun vs => decode env fuel t vs) s
     | .chain e => do
       -- W5ExtendedActions.UnmarshalTLB: an element, then the next reference of the cell if there is one
       let (x, s1) ← decode env fuel e s
